@@ -3,6 +3,8 @@ package props
 import (
 	"bytes"
 	"fmt"
+	"regexp"
+	"strings"
 	"testing"
 
 	"pgregory.net/rapid"
@@ -25,6 +27,26 @@ type c26Case struct {
 	// byte-side case: a byte string; if the decoder accepts it, it must re-encode to an equivalent packet
 	Bytes   []byte `json:"bytes,omitempty"`
 	Version byte   `json:"version,omitempty"`
+	// Ref (native fuzzing): if the strict reference decoder reads Bytes as exactly one packet (either direction), that
+	// packet goes through the packet-side oracle; the case is kept as bytes because a present-but-empty binary field
+	// does not survive the JSON form of a packet
+	Ref bool `json:"ref,omitempty"`
+}
+
+var zeroLenDiff = regexp.MustCompile(`^(Will)?Props\.[A-Za-z]+: (""|) != <absent>$`)
+
+// zeroLengthOnly: every difference is a string / binary property that the sender included with length 0 and that
+// came back absent.
+func zeroLengthOnly(d string) bool {
+	if d == "" {
+		return false
+	}
+	for _, part := range strings.Split(d, "; ") {
+		if !zeroLenDiff.MatchString(part) {
+			return false
+		}
+	}
+	return true
 }
 
 func c26Suppress(p *refmqtt.Packet, m c26Mods) *refmqtt.Packet {
@@ -40,6 +62,13 @@ func c26Suppress(p *refmqtt.Packet, m c26Mods) *refmqtt.Packet {
 	strip(&q.Props)
 	strip(&q.WillProps)
 	return &q
+}
+
+func c26ZeroSig(d, sig string) string {
+	if zeroLengthOnly(d) {
+		return "C26-zero-length-property-not-preserved"
+	}
+	return sig
 }
 
 func c26StripSized(p *refmqtt.Packet) *refmqtt.Packet {
@@ -71,6 +100,18 @@ func c26AckSig(p *refmqtt.Packet, base string) string {
 }
 
 func c26Check(c c26Case, r *evid.Rec) []evid.Disc {
+	if c.P == nil && c.Ref {
+		for _, dir := range []refmqtt.Direction{refmqtt.ClientToServer, refmqtt.ServerToClient} {
+			if p, n, err := refmqtt.Decode(c.Bytes, c.Version, dir); err == nil && n == len(c.Bytes) {
+				c.P, c.Dir, c.Mods = p, dir, c26Mods{AllowResponseInfo: true}
+				r.Label("bytes-read-by-reference/" + refmqtt.TypeName(p.Type))
+				if nontrivialPacket(p) {
+					r.NonTrivial(shapeKey(p))
+				}
+				break
+			}
+		}
+	}
 	if c.P == nil {
 		return c26CheckBytes(c, r)
 	}
@@ -97,7 +138,7 @@ func c26Check(c c26Case, r *evid.Rec) []evid.Disc {
 			got = c26StripSized(got)
 		}
 		if d := refmqtt.Diff(want, got); d != "" {
-			ds = append(ds, evid.D(c26AckSig(p, "C26-roundtrip-differs"), "%s: decode(encode(p)) differs: %s (bytes % x)", p, d, clip(enc)))
+			ds = append(ds, evid.D(c26ZeroSig(d, c26AckSig(p, "C26-roundtrip-differs")), "%s: decode(encode(p)) differs: %s (bytes % x)", p, d, clip(enc)))
 		}
 	}
 	// (b) the independent decoder reads mochi's bytes as the same packet
@@ -116,7 +157,7 @@ func c26Check(c c26Case, r *evid.Rec) []evid.Disc {
 			rp = c26StripSized(rp)
 		}
 		if d := refmqtt.Diff(want, rp); d != "" {
-			ds = append(ds, evid.D(c26AckSig(p, "C26-reference-differs"), "%s: reference decoder reads mochi's bytes differently: %s (bytes % x)", p, d, clip(enc)))
+			ds = append(ds, evid.D(c26ZeroSig(d, c26AckSig(p, "C26-reference-differs")), "%s: reference decoder reads mochi's bytes differently: %s (bytes % x)", p, d, clip(enc)))
 		}
 	}
 	// (c) mochi decodes the reference encoder's canonical bytes to p
@@ -125,7 +166,7 @@ func c26Check(c c26Case, r *evid.Rec) []evid.Disc {
 	if err != nil {
 		ds = append(ds, evid.D("C26-decode-rejects-reference-"+refmqtt.TypeName(p.Type), "%s: reference encoding % x rejected: %v", p, clip(renc), err))
 	} else if d := refmqtt.Diff(p, fromMochi(&m3, p.Version)); d != "" {
-		ds = append(ds, evid.D("C26-decode-differs-"+refmqtt.TypeName(p.Type), "%s: decode(reference bytes) differs: %s (bytes % x)", p, d, clip(renc)))
+		ds = append(ds, evid.D(c26ZeroSig(d, "C26-decode-differs-"+refmqtt.TypeName(p.Type)), "%s: decode(reference bytes) differs: %s (bytes % x)", p, d, clip(renc)))
 	}
 	return ds
 }
@@ -247,11 +288,21 @@ func mutateBytes(rt *rapid.T, b []byte) []byte {
 }
 
 func TestC26(t *testing.T) {
-	r := evid.New("C26", "rapid: well-formed abstract packets of all 15 types x versions {3,4,5} x legal directions with generated field values (empty/boundary-length strings and binaries, multi-byte UTF-8, boundary integers, 0-5 user properties, 0-4 subscription identifiers, every property permitted for the type) and generated encoder Mods; oracle: decode(encode(p)) == p after the documented suppressions, remaining length == bytes that follow, the independent reference decoder reads mochi's bytes as p, and mochi reads the reference encoder's bytes as p; byte side: mutated/truncated valid encodings - whatever the decoder accepts must survive re-encoding; non-trivial = packet with >=1 property, >=2 filters/codes or a boundary-length field (distinct by type/version/shape), or an accepted mutated byte string")
+	r := evid.New("C26", "rapid: well-formed abstract packets of all 15 types x versions {3,4,5} x legal directions with generated field values (empty/boundary-length strings and binaries, multi-byte UTF-8, boundary integers, 0-5 user properties, 0-4 subscription identifiers, every property permitted for the type) and generated encoder Mods; oracle: decode(encode(p)) == p after the documented suppressions, remaining length == bytes that follow, the independent reference decoder reads mochi's bytes as p, and mochi reads the reference encoder's bytes as p; fixed witnesses of zero-length properties (the generated optional strings / binaries are non-empty); byte side: mutated/truncated valid encodings - whatever the decoder accepts must survive re-encoding; non-trivial = packet with >=1 property, >=2 filters/codes or a boundary-length field (distinct by type/version/shape), or an accepted mutated byte string")
 	defer r.Finish(t)
 	if evid.ReplayMode() {
 		evid.Replay(t, r, replayPath(), c26Check)
 		return
+	}
+	// witnesses of the listed finding (a property present with length 0): the generators below draw optional strings
+	// and binaries non-empty, so these fixed packets make every run report the finding or its absence
+	for _, w := range [][]byte{
+		{0x30, 0x09, 0x00, 0x03, '0', '0', '0', 0x03, 0x09, 0x00, 0x00}, // PUBLISH, Correlation Data of length 0
+		{0x30, 0x09, 0x00, 0x02, '0', '0', 0x03, 0x03, 0x00, 0x00, '0'}, // PUBLISH, Content Type ""
+		{0xE0, 0x05, 0x00, 0x03, 0x1F, 0x00, 0x00},                      // DISCONNECT, Reason String ""
+	} {
+		r.Eval()
+		evid.Witness(t, r, c26Case{Bytes: w, Version: 5, Ref: true}, c26Check)
 	}
 	evid.Run(t, r, func(rt *rapid.T) c26Case {
 		p, dir := genAnyPacket(rt, nil)
